@@ -18,6 +18,7 @@
   the names; the abstract "iff" itself is checked in full for every rule row.
 -/
 import Ptx.Proofs.Restrict
+import Ptx.Proofs.Back
 import Ptx.Sem.Frames
 namespace Ptx.Props.C04
 open Ptx
@@ -52,6 +53,44 @@ theorem C04_modal_rule_forward_partial {L : LogicData} {M : Struct}
     (e : Env M.D) (σ : Nat → M.W) (hsb : SatB L M e σ b) :
     ∃ σ' : Nat → M.W, SatB L M e σ' b ∧ ∃ g ∈ gs, ∀ n ∈ g, satNode L M e σ' n :=
   modal_rule_sound hT hM hm hmo hd hr b hnode var wo hwit hgs e σ hsb
+
+
+/-- Operator rules, BACKWARD half: if the rule passes the abstract completeness check then, in every
+    structure and for all operand sentences, an extension all of whose nodes are satisfied makes
+    the node satisfied.  With `C04_op_rule_forward_partial`: node satisfied ⇔ some extension is. -/
+theorem C04_op_rule_backward {L : LogicData} {M : Struct} (hT : L.tablesTotalB = true) (hM : M.Interp L)
+    {s : Sent} {d : Option Bool} {w : Option Nat} {sh : Shape} {ng : Bool} {whole : Sent} {r : Rule}
+    (hd : s.decomp = some (sh, ng, whole)) (hsh : sh.isTF = true)
+    (hr : L.ruleCompleteB ⟨sh, ng, d⟩ r = true)
+    {A : Sent} (hA : whole.lhs? = some A) (raw : Option Sent) (var : Nat × Nat)
+    {gs : List (List Node)} (hgs : mapOpt (instAdds whole A whole.rhs? raw var w none) r.branches = some gs)
+    (e : Env M.D) (σ : Nat → M.W) {g : List Node} (hg : g ∈ gs) (hsat : ∀ n ∈ g, satNode L M e σ n) :
+    satNode L M e σ (.sent s d w) :=
+  op_rule_back hT hM hd hsh hr hA raw var hgs e σ hg hsat
+
+/-- Operator rules, exactness: the node is satisfied iff all nodes of at least one extension are. -/
+theorem C04_op_rule_exact {L : LogicData} {M : Struct} (hT : L.tablesTotalB = true) (hM : M.Interp L)
+    {s : Sent} {d : Option Bool} {w : Option Nat} {sh : Shape} {ng : Bool} {whole : Sent} {r : Rule}
+    (hd : s.decomp = some (sh, ng, whole)) (hsh : sh.isTF = true)
+    (hrs : L.ruleSoundB ⟨sh, ng, d⟩ r = true) (hrc : L.ruleCompleteB ⟨sh, ng, d⟩ r = true)
+    {A : Sent} (hA : whole.lhs? = some A) (raw : Option Sent) (var : Nat × Nat)
+    {gs : List (List Node)} (hgs : mapOpt (instAdds whole A whole.rhs? raw var w none) r.branches = some gs)
+    (e : Env M.D) (σ : Nat → M.W) :
+    satNode L M e σ (.sent s d w) ↔ ∃ g ∈ gs, ∀ n ∈ g, satNode L M e σ n :=
+  ⟨fun hn => op_rule_sound hT hM hd hsh hrs hA raw var hgs e σ hn,
+   fun ⟨_, hg, hsat⟩ => op_rule_back hT hM hd hsh hrc hA raw var hgs e σ hg hsat⟩
+
+/-- Modal rules, BACKWARD half, for every set of accessible worlds: satisfied extensions — at the
+    node's own world, at SOME accessible witness world, or at EVERY accessible world, as the rule's
+    kind says (`ModalDone`) — make the node satisfied. -/
+theorem C04_modal_rule_backward {L : LogicData} {M : Struct}
+    (hT : L.tablesTotalB = true) (hM : M.Interp L) (hm : L.modal = true)
+    {s : Sent} {d : Option Bool} {w0 : Nat} {mo : Op1} {ng : Bool} {A : Sent} {r : Rule}
+    (hmo : mo.isModal = true) (hd : s.decomp = some (.op1 mo, ng, .op1 mo A))
+    (hr : L.ruleCompleteB ⟨.op1 mo, ng, d⟩ r = true) (var : Nat × Nat)
+    (e : Env M.D) (σ : Nat → M.W) (hdone : ModalDone L M e σ mo A var w0 r) :
+    satNode L M e σ (.sent s d (some w0)) :=
+  modal_rule_back hT hM hm hmo hd hr var e σ hdone
 
 /-- Quantifier rules, for every nonempty domain (no bound on its size): a satisfied node has a
     satisfied extension, after interpreting a fresh witness constant suitably (new-constant
